@@ -218,7 +218,17 @@ class Move(AbstractCommand):
         self.do_execute()
 
     def do_execute(self):
+        # undo pops to_index and inserts at from_index: keep both as the
+        # positions really used (pop counts a negative index from the end,
+        # insert clamps)
+        if self.from_index < 0:
+            self.from_index += len(self._collection)
         self.value = self._collection.pop(self.from_index)
+        size = len(self._collection)
+        if self.to_index < 0:
+            self.to_index = max(0, size + self.to_index)
+        else:
+            self.to_index = min(self.to_index, size)
         self._collection.insert(self.to_index, self.value)
 
 
